@@ -208,6 +208,11 @@ def _t_pd_d_bool(x=True): return ('result', ['pd_d_bool', x], ('pd_d_bool', (x,)
 def _t_pd_d_float(x=1.0): return ('result', ['pd_d_float', x], ('pd_d_float', (x,), {}))
 
 
+def _t_fielderr(entries=()):
+    e = list(entries) if isinstance(entries, (list, tuple)) else [entries]
+    return ('error', (70004, 'probe field errors', {'entries': e}), ('fielderr', (entries,), {}))
+
+
 def _t_byid(id, extra=0): return ('result', ['byid', id, extra], ('byid', (id, extra), {}))
 def _t_wrapped(a, b=0): return ('result', ['wrapped', a, b], ('wrapped', (a, b), {}))
 def _t_vm(a, b=0): return ('result', ['vm', a, b], ('view.vm', (a, b), {}))
@@ -221,7 +226,7 @@ TWINS = {
     'odd_defaults': _t_odd_defaults, 'tc_only': _t_tc_only, 'pd_strip': _t_pd_strip, 'view.cm': _t_cm, 'view.sm': _t_sm, 'view.note': _t_note, 'cnt.bump': _t_bump,
     'pd_even': _t_pd_even, 'pd_span': _t_pd_span, 'pd_asis': _t_pd_asis, 'js_ref': _t_js_ref, 'rpc.ping': _t_rpc_ping, 'js_list': _t_js_list, 'ctxm_plain': _t_ctxm_plain,
     'keyed': _t_keyed, 'stale': _t_stale, 'users.create': _t_users_create, 'orders.create': _t_orders_create,
-    'pd_d_int': _t_pd_d_int, 'pd_d_bool': _t_pd_d_bool, 'pd_d_float': _t_pd_d_float,
+    'fielderr': _t_fielderr, 'pd_d_int': _t_pd_d_int, 'pd_d_bool': _t_pd_d_bool, 'pd_d_float': _t_pd_d_float,
 }
 
 
